@@ -1520,10 +1520,10 @@ carquet_status_t carquet_read_next_page(
 
     /* Calculate how many values to return from the current page */
     int32_t available = reader->page_num_values - reader->page_values_read;
-    int32_t to_copy = (int32_t)max_values;
-    if (to_copy > available) {
-        to_copy = available;
-    }
+    /* Clamp in 64 bits: max_values may exceed INT32_MAX (a caller reading
+     * "everything" into a large buffer), and narrowing it first would turn it
+     * into a negative or tiny count. */
+    int32_t to_copy = max_values > (int64_t)available ? available : (int32_t)max_values;
 
     /* Copy values from decoded buffers. Levels are stored one per row, but
      * decoded_values is dense (non-null values only), so the value cursor is
